@@ -43,6 +43,8 @@ class NewFileCreator:
 
 
 class ExistingFileModifier:
+    _PATH_MODIFICATION_FAILURE = 'Failed to modify path'
+
     def __init__(self,
                  file_type: FileType,
                  maker: Callable[[DescribedPath], None],
@@ -52,7 +54,16 @@ class ExistingFileModifier:
 
     def make(self, path: DescribedPath):
         self._assert_is_valid_path(path)
-        self._maker(path)
+        try:
+            self._maker(path)
+        except OSError as ex:
+            failure = failure_details.FailureDetails(
+                path_err_msgs.line_header__primitive__path(
+                    self._PATH_MODIFICATION_FAILURE,
+                    path),
+                ex
+            )
+            raise HardErrorException(_fd_rendering.FailureDetailsRenderer(failure))
 
     def _assert_is_valid_path(self, path: DescribedPath):
         result = self._file_check.apply(path.primitive)
